@@ -103,8 +103,17 @@ def run(tier, seed):
                 r.counters['enumerated_cases_%s' % variant] = r.counters.get('cases', 0)
                 total.merge(r)
             total.merge(sentinel_shard({'binary': binary, 'variant': variant}))
+            if variant in ('release', 'dev'):
+                # sample sizes beyond 2^32 by repeated self-merging: n/(n-1) and 1/n factors at huge n
+                import bigcount
+                only = dict(TYPES)
+                bc = [(t, ka, kb) for t in ('Variance', 'Skewness', 'Kurtosis', 'Moments4', 'M6', 'M10')
+                      for ka, kb in [(31, 31), (32, 32), (33, 0), (33, 33), (40, 20)]]
+                bdescs = [{'name': 'b%s%d' % (variant[0], s), 'variant': variant, 'binary': binary, 'work': bc[s::8], 'prop': PROP,
+                           'only': only, 'seed': seed * 7 + s} for s in range(8)]
+                total.merge(common.run_shards(bigcount.shard, bdescs))
     except common.Inconclusive as e:
         total.inconclusive.append(str(e))
-    need = {'nontrivial_states': 1000, 'seen_skew_pos': 20, 'seen_skew_neg': 20, 'sentinel_states': 50}
+    need = {'bigcount_states_above_2^32': 20, 'nontrivial_states': 1000, 'seen_skew_pos': 20, 'seen_skew_neg': 20, 'sentinel_states': 50}
     return common.finish(PROP, tier, seed, total, RULE, t0, ASSUME, min_events=need,
                          extra={'builds': [v for v, _ in variants], 'enumerated_sequences': exhaustive_count})
